@@ -9,7 +9,7 @@ HARNESSES = [dict(name="ppp", pkg="./pkg/ppp/", test="TestVerifC05", timeout=900
 
 
 def route(case):
-    return "ppp_race" if case.startswith(("conc ", "late ")) else "ppp"
+    return "ppp_race" if case.startswith("conc ") else "ppp"
 
 
 
@@ -49,7 +49,9 @@ ASSUMPTIONS = ["maxConf >= 0 and maxTerm >= 0 (NewFSM fixes them at 10 and 2)",
                "the forced-overlap cases (a second goroutine's event must wait while the first is inside a callback)",
                "no callback re-enters the FSM"]
 
-ADMIN = ["U", "D", "O", "C", "T"]
+# T = production timer callback timerFired with the current generation; X = with a superseded generation;
+# Y = exported Timeout() (no production caller; unguarded)
+ADMIN = ["U", "D", "O", "C", "T", "X", "Y"]
 E_FULL = (ADMIN +
           ["I1.%s.%s.0" % (i, c) for i in ("7", "255") for c in "gnrbm"] +
           ["I%d.%s.%s.0" % (k, i, c) for k in (2, 3, 4) for i in "csp" for c in "gnrbm"] +
@@ -127,7 +129,7 @@ def mk(kind, cfg, ops):
     return " ".join([kind, cfg[0], cfg[1]] + [expand(kind, o) for o in ops])
 
 
-WEIGHTED = ([("U", 3), ("D", 1), ("O", 3), ("C", 1), ("T", 5), ("I1.7.g.0", 4), ("I1.9.n.0", 2), ("I1.7.r.0", 1),
+WEIGHTED = ([("U", 3), ("D", 1), ("O", 3), ("C", 1), ("T", 5), ("X", 1), ("Y", 1), ("I1.7.g.0", 4), ("I1.9.n.0", 2), ("I1.7.r.0", 1),
              ("I1.8.b.0", 1), ("I1.7.m.0", 1), ("I2.c.b.0", 4), ("I2.c.r.0", 1), ("I2.s.g.0", 1), ("I2.p.m.0", 1),
              ("I3.c.b.0", 1), ("I3.c.n.0", 1), ("I3.c.r.0", 1), ("I3.s.n.0", 1), ("I3.p.g.0", 1), ("I4.c.g.0", 1),
              ("I4.c.r.0", 1), ("I4.p.g.0", 1), ("I4.s.n.0", 1), ("I5.9.g.0", 1), ("I6.9.g.0", 1), ("I7.9.g.0", 1),
@@ -208,7 +210,7 @@ def gen_cases(rng, tier, budget):
         cases.append(mk(rng.choice(["fsm", "lcp", "ipcp"]), ("2", "1"), w))
     # 7. forced overlap: A parked in a callback, B injected from a second goroutine
     A_SET = [RCRP, "I1.7.n.0", RCA, "I3.c.g.0", RTR, "I6.9.g.0", RXJ, "C", "D", "T", "O", "U"]
-    B_SET = [RCA, RTR, RCRP, "T", "C", "D", "I3.c.g.0", "I6.9.g.0"]
+    B_SET = [RCA, RTR, RCRP, "T", "F", "X", "C", "D", "I3.c.g.0", "I6.9.g.0"]
     for p in prefixes("2", "1"):
         for a in A_SET:
             for b in B_SET:
@@ -218,11 +220,6 @@ def gen_cases(rng, tier, budget):
         for a in A_SET:
             for b in B_SET:
                 cases.append(mk("conc", ("2", "1"), p + ["/", "s", a, b]))
-    # 8. real restart timer firing while A is parked in a callback (late timer callback)
-    for p in ([["O", "U"], ["O", "U", "T"], ["O", "U", RCRP], ["O", "U", RCA], ["O", "U", "C"], ["O", "U", RXJ],
-               ["O", "U", RCRP, RCA, RXJ], ["O", "U", RCRP, RCA, RTR], ["O", "U", RCRP, RCA], ["U"]]):
-        for a in [RCRP, "I1.7.n.0", RCA, "I3.c.g.0", RTR, "I6.9.g.0", RXJ, "C", "D", "O", "I9.9.g.4", "I12.9.g.2"]:
-            cases.append(mk("late", ("2", "1"), p + ["/", "a", a]))
     cases.append(mk("fsm", ("d", "d"), ["O", "U"] + ["I12.9.g.2"] * 300 + [RCA, "I2.s.g.0", RCRP, RCA]))
     cases.append(mk("fsm", ("d", "d"), ["O", "U"] + ["I3.c.g.0"] * 260 + [RCRP, RCA]))
     return cases
@@ -234,7 +231,7 @@ def steps(line):
     the trailing ov=/alt=/term= tokens of a conc case are ignored here (see flags())"""
     out = []
     for tok in line.split():
-        if tok.startswith(("ov=", "alt=", "term=")):
+        if tok.startswith(("ov=", "alt=", "term=", "lock=", "HANG")):
             continue
         p = tok.split(":")
         if len(p) != 3:
@@ -251,7 +248,7 @@ def steps(line):
 
 
 def flags(line):
-    return [t for t in line.split() if t.startswith(("ov=", "alt=", "term="))]
+    return [t for t in line.split() if t.startswith(("ov=", "alt=", "term=", "lock=", "HANG"))]
 
 
 def case_ops(case):
@@ -275,9 +272,11 @@ def rfc_class(op, pre, kind="fsm"):
     if op in ("U", "D", "O", "C"):
         return {"U": "Up", "D": "Down", "O": "Open", "C": "Close"}[op]
     if op == "T":
+        if not pre[2]:
+            return None            # no pending timer: not an event
         return "TO+" if pre[1] > 0 else "TO-"
-    if op in ("R", "K"):
-        return "admin-" + {"R": "Restore", "K": "Kill"}[op]
+    if op in ("R", "K", "X", "Y"):
+        return "admin-" + {"R": "Restore", "K": "Kill", "X": "StaleTimerFire", "Y": "Timeout()"}[op]
     if "||" in op:
         return "overlapped-pair"
     f = op[1:].split(".")
@@ -332,7 +331,7 @@ def classify(case, impl, model):
     si, sm = steps(impl), steps(model)
     if si is None or sm is None:
         return "P", "implementation output not a step list: %r" % impl[:200]
-    bad = [x for x in flags(impl) if x.endswith("BAD")]
+    bad = [x for x in flags(impl) if x.endswith(("BAD", "FREE")) or x == "HANG"]
     i = first_diff(impl, model)
     if i is None:
         if bad or flags(impl) != flags(model):
@@ -424,5 +423,7 @@ def distribution(cases, impl):
     cells = {x for x in cells if x[1] != "overlapped-pair" and not x[1].startswith("admin-")}
     d["cells_hit"] = len({(a, b) for a, b, _ in cells})
     d["cells_x_counterclass_hit"] = len(cells)
-    d["cells_total"] = 10 * 18 - 9  # 10 states x (17 RFC classes + discarded); RXJ+ arises in Opened only
+    # 10 states x (17 RFC classes + discarded), minus RXJ+ outside Opened (9) and TO+/TO- in the four states in
+    # which no timer can be pending (Initial, Starting, Closed, Opened: 8)
+    d["cells_total"] = 10 * 18 - 9 - 8
     return d
